@@ -1301,6 +1301,7 @@ where
     if let Outcome::Panic(msg) = r {
         fail!(T_C10, "{} panicked: {}", what, msg);
     }
+    let mut not_visited: Option<Fail> = None;
     // recursive mapper: every table that lies wholly inside the range has to be examined (there is no
     // other way to learn whether it is empty), and it and its ancestors are reached through the
     // recursive addresses the index-repetition formula gives for *that* table
@@ -1326,7 +1327,13 @@ where
             }
         });
         if let Some((lvl, base, pg)) = missing {
-            fail!(T_C20 | T_C10, "{}: the level-{} table on the way to / of the table at {:#x}, which lies wholly inside the range, was never accessed through its recursive address {:#x} (pages accessed: {:x?})", what, lvl, base, pg, visited);
+            let f = Fail { tag: T_C20 | T_C10, msg: format!("{}: the level-{} table on the way to / of the table at {:#x}, which lies wholly inside the range, was never accessed through its recursive address {:#x} (pages accessed: {:x?})", what, lvl, base, pg, visited) };
+            if ctx.enabled & T_C20 != 0 {
+                return Err(f);
+            }
+            // runs of the other properties report what their own oracles see first (a table that was
+            // not visited usually also shows as a wrong release or a lost translation)
+            not_visited = Some(f);
         }
     }
     // process the deallocation log in order
@@ -1420,6 +1427,9 @@ where
         fail!(T_C10, "{}: repeating the clean-up deallocated again: {:x?}", what, ctx.alloc.log);
     }
     let _ = before_model;
+    if let Some(f) = not_visited {
+        return Err(f);
+    }
     Ok(())
 }
 
